@@ -300,12 +300,13 @@ class SFTPClient(BaseSFTP, ClosingContextManager):
                 # Exit the loop when we've reached the end of the directory
                 # handle
                 for num in nums:
-                    t, pkt_data = self._read_packet()
-                    msg = Message(pkt_data)
-                    new_num = msg.get_int()
-                    if num == new_num:
-                        if t == CMD_STATUS:
-                            self._convert_status(msg)
+                    # NOTE: go through _read_response(): replies to other
+                    # requests of this session (a prefetch in progress,
+                    # pipelined writes) may arrive in between and have to
+                    # reach the file they belong to, not be taken for ours.
+                    t, msg = self._read_response(num)
+                    if t != CMD_NAME:
+                        raise SFTPError("Expected name response")
                     count = msg.get_int()
                     for i in range(count):
                         filename = msg.get_text()
